@@ -634,7 +634,7 @@ Definition refusal_spec (i : inner) (dst : string) : string :=
   seps " || " (map (fun s => s ++ ";same=1") (flat_map (pr_refusal i dst) (may_refuse (i_op i)))).
 
 (* ---------- per unit ---------- *)
-Definition path_lines (u : string) (n : node) (vi : nat) (v : val) : list string :=
+Definition path_lines_at (u : string) (n : node) (vi : nat) (v : val) (ps : list tagged) : list string :=
   let value := pr_val true v in
   flat_map (fun jp : nat * tagged =>
     let '(j, (path, ptag)) := jp in
@@ -643,7 +643,9 @@ Definition path_lines (u : string) (n : node) (vi : nat) (v : val) : list string
     let tags := ptag ++ "," ++ nav_tag n v path ++ "," ++ tags_of is in
     ([forms_line u id tags value is; pure_line u id tags "v" value "*" is] ++
     (if Nat.eqb (Nat.modulo (vi + j) 3) 0 then [pure_line u id tags "pp" value "*" is] else []))%list)
-  (let ps := sel_paths (paths n v) in combine (seqn (List.length ps)) ps).
+  (combine (seqn (List.length ps)) ps).
+Definition path_lines (u : string) (n : node) (vi : nat) (v : val) : list string :=
+  path_lines_at u n vi v (sel_paths (paths n v)).
 
 Definition value_lines (u : string) (n : node) (vs : list val) (vi : nat) (v : val) : list string :=
   let value := pr_val true v in
@@ -719,6 +721,10 @@ Definition case_lines (pas : list partner) (rps : list rpartner) (u : string * t
         (DeepEqual of an object with itself is then false - in every argument form) *)
      (let vinf := inf_floats (last vs v0) in
       if val_eqb vinf (last vs v0) then [] else value_lines (fst u) n vs 900 vinf) ++
+     (* NaN keys: every read at every collection of the most populated value whose float-keyed maps hold a NaN key *)
+     (let vnan := nan_keys (last vs v0) in
+      if val_eqb vnan (last vs v0) then [] else
+        path_lines_at (fst u) n 902 vnan (map (fun p => (p, "nankey")) (coll_paths n vnan))) ++
      (* histories on the most populated value with long string keys *)
      (let vlong := long_keys (last vs v0) in
       if val_eqb vlong (last vs v0) then [] else hist_lines (fst u) n pas rps 901 vlong))%list
